@@ -72,3 +72,37 @@ pub fn run() -> i32 {
     }
     if out.is_ok() { 0 } else { 2 }
 }
+
+/// Compile every program of the repository's own test corpus and compare acceptance with the
+/// `// error:` headers (runtime-only expectations `#` count as "compiles").
+pub fn corpus() -> i32 {
+    let mut files = Vec::new();
+    crate::util::collect_sy(std::path::Path::new("/repo/tests"), &mut files);
+    let mut bad = 0;
+    let mut n = 0;
+    for f in files {
+        let name = f.file_name().unwrap().to_string_lossy().to_string();
+        if name.starts_with('_') {
+            continue;
+        }
+        let text = std::fs::read_to_string(&f).unwrap();
+        let expected_compile_errors = text.lines().filter(|l| l.starts_with("// error:")).filter(|l| !l["// error:".len()..].trim().starts_with('#')).count();
+        // real file system reader: the corpus uses imports
+        let mut args = sylt::Args::default();
+        args.args = vec![f.display().to_string()];
+        let mut out = Vec::new();
+        let res = std::panic::catch_unwind(std::panic::AssertUnwindSafe(|| sylt::compile_with_reader_to_writer(&args, sylt::read_file, &mut out)));
+        n += 1;
+        let got = match &res {
+            Ok(Ok(())) => 0,
+            Ok(Err(e)) => e.len(),
+            Err(_) => usize::MAX,
+        };
+        if got != expected_compile_errors {
+            bad += 1;
+            println!("MISMATCH {}: expected {} compile errors, got {}", f.display(), expected_compile_errors, if got == usize::MAX { "panic".to_string() } else { got.to_string() });
+        }
+    }
+    println!("corpus: {} programs, {} mismatches", n, bad);
+    if bad == 0 { 0 } else { 1 }
+}
